@@ -22,6 +22,13 @@ import itertools
 OUTCOMES = ("pass", "fail", "error", "pending", "undefined", "skip", "kbi", "abort")
 # + "convert": a typed parameter whose converter raises (C02 enumerates it as an outcome of its own; since round 13 it is also a deviation of every run-level check)
 NONPASS = OUTCOMES[1:] + ("convert",)     # the default deviation alphabet of every run-level check
+# exception-CLASS variants of the outcomes: for every `except X` clause of Step.run the alphabet holds X itself (above),
+# a subclass of X (same status expected) and X's immediate superclass (must fall through to another clause):
+#   failS = raises a subclass of AssertionError -> failed;   pendingS = raises PendingStepError (subclass of
+#   StepNotImplementedError) -> pending;   errorN = raises the builtin NotImplementedError (superclass of
+#   StepNotImplementedError) -> error;   kbiS = raises a subclass of KeyboardInterrupt -> like kbi
+BASE = {"failS": "fail", "pendingS": "pending", "errorN": "error", "kbiS": "kbi"}
+CLASS_VARIANTS = tuple(BASE)
 PTAG = "<tg>"          # parametrised outline tag; the row supplies the value in column "tg"
 
 
@@ -117,7 +124,10 @@ def _walk_items(cont, path, inh_tags, inh_bg, sid):
             ri = 0
             for extags, rows in it[3]:
                 for row in rows:
-                    own = tuple((row[-1] if t == PTAG else t) for t in it[1]) + tuple(extags)
+                    # a block WITHOUT the "tg" column (rows no longer than ncols): the parametrised tag cannot be
+                    # resolved for its rows and is dropped (C06)
+                    own = tuple((row[-1] if t == PTAG else t) for t in it[1]
+                                if not (t == PTAG and len(row) <= ncols)) + tuple(extags)
                     steps = [(tsids[c], row[c]) for c in range(ncols)]
                     rbgs = [(sid_, row[int(o_[2:-1])] if is_placeholder(o_) else o_) for sid_, o_ in bgs]
                     names = [("step %d %s" % (sid_, cell_text(row[int(o_[2:-1])])) if is_placeholder(o_)
@@ -290,11 +300,12 @@ def render(feature, fi=0, indent="  ", language=None):
                 for b, (extags, rows) in enumerate(it[3]):
                     tagline(extags, ind + indent * 2)
                     emit("%sExamples: E%d" % (ind + indent * 2, b))
-                    width = max([len(r) for r in rows] + [ncols + (1 if has_ptag else 0)]) - (1 if has_ptag else 0)
-                    cols = ["o%d" % c for c in range(width)] + (["tg"] if has_ptag else [])
+                    has_tg = has_ptag and (not rows or len(rows[0]) > ncols)    # a block may lack the "tg" column
+                    width = max([len(r) for r in rows] + [ncols + (1 if has_tg else 0)]) - (1 if has_tg else 0)
+                    cols = ["o%d" % c for c in range(width)] + (["tg"] if has_tg else [])
                     emit("%s| %s |" % (ind + indent * 3, " | ".join(cols)))
                     for row in rows:
-                        cells = [cell_text(v) for v in row[:width]] + ([row[-1]] if has_ptag else [])
+                        cells = [cell_text(v) for v in row[:width]] + ([row[-1]] if has_tg else [])
                         meta["lines"][p + (ri,)] = emit("%s| %s |" % (ind + indent * 3, " | ".join(cells)))
                         ri += 1
             else:
@@ -348,6 +359,9 @@ def shapes(tier="quick"):
     e_first = O2([((), ()), ((), (("pass",), ("pass",)))])
     e_last = O2([((), (("pass",),)), ((), ())])
     for f in (F((e_first,)), F((e_last, S())), F((S(), R((e_first,), bg=("pass",)))), F((e_last,), bg=("pass",))):
+        yield f
+    # a scenario without steps of its own whose only children are the inherited background steps
+    for f in (F((S(()), S()), bg=("pass",)), F((R((S(()),), bg=("pass",)),)), F((R((S(()), S())),), bg=("pass",))):
         yield f
 
 
